@@ -33,6 +33,19 @@ Section Kw.
     apply (pre_to_fn g full c WS Hc). unfold pre_fn. rewrite Hi, Hs. reflexivity.
   Qed.
 
+  (* a node with standard flags that pre-parses sees x and std_pre x alike *)
+  Lemma evals_spre_inv i nd x r :
+    nth_error g i = Some nd -> std_flags c WS nd -> ncallpre nd = true ->
+    evals i true (At x) r -> evals i true (At (std_pre x)) r.
+  Proof.
+    intros Hn Hf Hcp [a Ha].
+    destruct (pre_to_std g full c WS nd x (std_pre x) Hc Hf eq_refl) as [p1 Hp1].
+    destruct (pre_to_std g full c WS nd (std_pre x) (std_pre x) Hc Hf (std_pre_idem g c WS Hc x)) as [p2 Hp2].
+    exists (S (Nat.max a (Nat.max p1 p2))). intros f Hle. destruct f as [|f]; [lia|].
+    rewrite <- (Ha (S f)) by lia. rewrite !parse_S, Hn, Hcp. cbn [andb].
+    rewrite (Hp1 f f), (Hp2 f f) by lia. reflexivity.
+  Qed.
+
   (* ---- terminals ---- *)
   Lemma evals_leaf_std i cp nd x r :
     nth_error g i = Some nd -> std_flags c WS nd ->
